@@ -8,7 +8,7 @@ Semantics implemented (see vlib/simmpi/README.md):
  * Test() on a completed request may answer False a bounded number of times (scheduler decision)
  * lower-case calls pickle at post time; upper-case calls keep a reference to the buffer, snapshot its bytes at post time,
    transfer the snapshot at match time and report a *buffer violation* if the live buffer differs from the snapshot when
-   the operation completes (for the sender: when its completion is first observed)
+   a rendezvous-mode send is matched, or when the sender first observes completion (Wait / successful Test)
  * collectives match by call order per communicator and complete when all members have arrived
  * deadlock = no runnable rank while some rank has not finished
 """
@@ -188,11 +188,11 @@ class World:
                 self.cv.notify_all()
             for t in threads:
                 t.join(timeout=10)
-        # finalisation checks
+        # finalisation checks (receives left over after an aborted run are consequences of the abort, not findings)
         for c in self.comms:
             for key, q in c.recvq.items():
                 for rq in q:
-                    if not rq.matched and not rq.cancelled:
+                    if self.abort is None and not rq.matched and not rq.cancelled:
                         self.violations.append(('unmatched-receive', f'comm {c.cid}: receive by rank {key[1]} from {key[0]} tag {key[2]} never matched'))
             c.unmatched_sends = sum(1 for q in c.sendq.values() for s in q if not s.matched and not s.cancelled)
         World.current = None
@@ -215,6 +215,7 @@ class Request:
         self.test_delay = 0
         self.owner = world.rank()
         self.on_complete = None
+        self.flagged = False
 
     def _is_complete(self):
         return self.cancelled or self.complete_flag or (self.kind == 'send' and self.eager) or self.matched
@@ -224,7 +225,8 @@ class Request:
             return
         self.observed = True
         if self.kind == 'send' and self.buf is not None and self.snapshot is not None and not self.cancelled:
-            if np.asarray(self.buf).tobytes() != self.snapshot:
+            if np.asarray(self.buf).tobytes() != self.snapshot and not self.flagged:
+                self.flagged = True
                 self.world.violations.append(('buffer-modified-before-send-completed', f'rank {self.owner}: buffer of a non-blocking send changed between post and completion'))
         if self.on_complete:
             self.on_complete()
@@ -323,6 +325,10 @@ class Intracomm:
             if s is None or r is None:
                 return
             s.matched = r.matched = True
+            if s.buf is not None and s.snapshot is not None and not s.eager and not s.flagged and np.asarray(s.buf).tobytes() != s.snapshot:
+                # a rendezvous-mode send completes when it is matched: the live buffer must still hold what was posted
+                s.flagged = True
+                self.world.violations.append(('buffer-modified-before-send-completed', f'rank {s.owner}: buffer of a non-blocking send (tag {key[2]} to {key[1]}) changed between post and match'))
             if r.buf is not None:  # upper-case receive: copy data of the posted message into the buffer
                 data = np.frombuffer(s.snapshot, dtype=np.asarray(s.buf).dtype).reshape(np.asarray(s.buf).shape) if s.snapshot is not None else s.payload
                 np.asarray(r.buf)[...] = np.asarray(data).reshape(np.asarray(r.buf).shape)
